@@ -22,20 +22,23 @@ def selfN(a):
     return a.tenv.length(adt_args(a.body["impl_self"])[1]) if is_ga(a.body["impl_self"]) else None
 
 
-def provenance_rule(ctx, cfg, key, spec, pre=None, cases=None, rule="C09.M"):
+def provenance_rule(ctx, cfg, key, spec, pre=None, cases=None, rule="C09.M", elem_len=None):
     """Decide an owned sequence operation by byte provenance (segmap): on every return path, each component of the result is made of
     exactly the bytes of the inputs the Vec-operation specification names, the inputs are moved (never dropped afterwards) and no foreign code runs.
     spec(a, S, N) -> list over result components of [(size, origin arg, origin offset), ...]; cases: alternative extra fact lists that together
     cover the precondition (each case is decided separately with its own expected map)."""
     from ..segmap import Engine, same_map, path_calls
-    from ..typestate import Classifier, has_generic
+    from ..typestate import Classifier, may_run_drop_code
     b = ctx.body(cfg, key, rule)
     if b is None:
         return 0
     a = ctx.analysis_inl(cfg, key, split=True, force="*", keep=("const_transmute",), tag="prov")
-    T = adt_args(b["impl_self"])[0]
+    if elem_len is not None:
+        T, N = elem_len(a)   # a method of another type (a builder): which of its parameters are the element type and the length
+    else:
+        T = adt_args(b["impl_self"])[0]
+        N = selfN(a)
     S = a.tenv.size(T)
-    N = selfN(a)
     cl = Classifier(ctx.db(cfg))
     problems, notes = [], []
     if not a.returns:
@@ -44,7 +47,7 @@ def provenance_rule(ctx, cfg, key, spec, pre=None, cases=None, rule="C09.M"):
     if foreign:
         problems.append("calls that can run foreign code inside a pure regrouping: %s" % sorted(set(foreign)))
     # the inputs are moved out bytewise: dropping one of them afterwards would drop the elements a second time
-    dropped = [d["place"]["l"] for d in a.drops if not d["cleanup"] and not d["place"]["p"] and d["place"]["l"] in range(1, a.mir["arg_count"] + 1) and has_generic(d["ty"])]
+    dropped = [d["place"]["l"] for d in a.drops if not d["cleanup"] and not d["place"]["p"] and d["place"]["l"] in range(1, a.mir["arg_count"] + 1) and may_run_drop_code(d["ty"])]
     if dropped:
         problems.append("by-value input(s) _%s are dropped on the normal path although their elements were moved into the result" % sorted(set(dropped)))
     case_list = cases(a, S, N) if cases else [("", [], None)]
